@@ -70,11 +70,11 @@ package types
 //@ ensures [not-above-latest] err == nil ==> !cs.LatestHeight.LT(height)
 //@ ensures [stored-height] err == nil ==> kvhas(store, host.ConsensusStateKey(height)) && consensusState == first(GetConsensusState(store, cdc, height))
 
-// ... and only after the configured delay since that height was processed (unsigned 64-bit nanoseconds; the sum is
-// compared as the code computes it, and as mathematical integers when it does not wrap)
+// ... and only after the configured delay since that height was processed (unsigned 64-bit nanoseconds; stated without
+// a sum, i.e. as the mathematical now >= processed + delay for EVERY delay - no exception for a sum that wraps)
 // verif:func verifyDelayPeriodPassed
 //@ ensures [processed] result == nil ==> kvhas(store, ProcessedTimeKey(proofHeight))
-//@ ensures [delay-elapsed] result == nil && sdk.BigEndianToUint64(kvget(store, ProcessedTimeKey(proofHeight))) + delayPeriod >= delayPeriod ==> sdk.BigEndianToUint64(kvget(store, ProcessedTimeKey(proofHeight))) + delayPeriod <= uint64(blocktime(ctx).UnixNano())
+//@ ensures [delay-elapsed] result == nil ==> uint64(blocktime(ctx).UnixNano()) >= sdk.BigEndianToUint64(kvget(store, ProcessedTimeKey(proofHeight))) && uint64(blocktime(ctx).UnixNano()) - sdk.BigEndianToUint64(kvget(store, ProcessedTimeKey(proofHeight))) >= delayPeriod
 
 // verif:func (ClientState).VerifyPacketCommitment
 //@ callsite VerifyMembership [root-of-proof-height] root == first(GetConsensusState(store, cdc, height)).Root && specs == cs.ProofSpecs && value == commitmentBytes
